@@ -154,7 +154,9 @@ def exhaustive_case(hv, pattern, cfg):
         subline = [f"@B0:v{v}" for v in vals]
     extra = {}
     if wide:
-        extra = dict(rel_widths=[1, 3], null_cells={f"{i},0" for i in range(0, n, 2)})
+        # the null sits in the column that is NOT the row's calibrated one (make_table never blanks that): on odd rows the
+        # 1-width column is null and the wrapping text stands to its right in the 3-width column
+        extra = dict(rel_widths=[1, 3], null_cells={f"{i},{1 - i % 2}" for i in range(n)})
     rec = pgen.make_table(list(hv), groups, ndata=2 if wide else 1, subline=subline, page_by_levels=levels, new_page=new_page, pageby_row=pbr,
                           header=header, footnote=fn, source=src, nrow=nrow, glyphs=glyphs, **extra)
     rec["strategy"] = strat
